@@ -40,6 +40,7 @@ ASSUMPTIONS = [
 ]
 
 SCAL = st.one_of(st.none(), st.sampled_from([0, 1, 2, 3, 10, 1.5, "", "a", "b", "ab", "1"]))
+SCAL_BOOL = st.one_of(st.none(), st.booleans(), st.sampled_from([0, 1, 2, 1.0, 0.0, "", "a", "1"]))
 
 
 def vals_same(a, b):
@@ -146,7 +147,19 @@ def fold(operand_results, ops):
     return cur
 
 
+def has_bool(v):
+    if isinstance(v, bool):
+        return True
+    if isinstance(v, dict):
+        return any(has_bool(x) for x in v.values())
+    if isinstance(v, list):
+        return any(has_bool(x) for x in v)
+    return False
+
+
 def judge_compound(stats: Stats, texts, ops, doc, origin, forms=False):
+    """fold oracle (only for boolean-free documents, where the unspecified equality of '&' cannot matter) and,
+    for every document, agreement of findall / finditer / query / match among themselves"""
     env = jsonpath.DEFAULT_ENV
     text = texts[0] + "".join(" %s %s" % (o, t) for o, t in zip(ops, texts[1:]))
     case = {"texts": texts, "ops": ops, "doc": doc, "origin": origin}
@@ -157,6 +170,15 @@ def judge_compound(stats: Stats, texts, ops, doc, origin, forms=False):
         stats.excluded["compile-or-operand-error"] += 1
         return None
     want = fold(parts, ops)
+    if has_bool(doc):
+        # which equality '&' uses between a boolean and a number is not specified: take the library's own
+        # findall as the reference and require every other entry point to agree with it
+        try:
+            want = comp.findall(doc)
+        except Exception as e:  # noqa: BLE001
+            stats.fail("compound:findall:raised:%s" % type(e).__name__, case, repr(e))
+            return None
+        stats.cls("compound:agreement-only(booleans)")
     tag = "".join(ops)
     tagc = "%d&" % min(tag.count("&"), 2)
     routes = {
@@ -191,7 +213,8 @@ def judge_compound(stats: Stats, texts, ops, doc, origin, forms=False):
 
 @st.composite
 def cases(draw):
-    doc = draw(D.containers(name_st=st.sampled_from(["a", "b", "c", "d"]), scalars=SCAL, max_leaves=10))
+    scal = SCAL_BOOL if draw(st.integers(0, 3)) == 0 else SCAL
+    doc = draw(D.containers(name_st=st.sampled_from(["a", "b", "c", "d"]), scalars=scal, max_leaves=10))
     return doc, draw(st.integers(0, 2**32 - 1))
 
 
@@ -219,7 +242,7 @@ def t_random(seed, n):
                 stats.nt("forms", text, canon(doc))
         else:
             k = rng.choice([2, 2, 3, 3, 4])
-            texts = [rng.choice(["$..*", "$.*", "$[*]", "$..a", "$.*.*"]) if rng.random() < 0.5 else gen_simple(rng, doc, 0.1) for _ in range(k)]
+            texts = [rng.choice(["$..*", "$.*", "$[*]", "$..a", "$.*.*", "^[0].*", "^..*", "^[0]", "^[*][*]"]) if rng.random() < 0.5 else gen_simple(rng, doc, 0.1) for _ in range(k)]
             ops = [rng.choice("|&&") for _ in range(k - 1)]
             forms = rng.random() < 0.3
             r = judge_compound(stats, texts, ops, doc, "compound", forms=forms)
@@ -249,6 +272,9 @@ def t_operators():
         for ops in itertools.product("|&", repeat=k):
             for operands in itertools.product(names, repeat=k + 1):
                 texts = ["$.%s[*]" % o for o in operands]
+                if n % 3 == 0:
+                    # the same operands written with the fake root, in alternating positions
+                    texts = [("^[0].%s[*]" % o) if (i + n // 3) % 2 else t for i, (o, t) in enumerate(zip(operands, texts))]
                 judge_compound(stats, texts, list(ops), doc, "operators", forms=(n % 7 == 0))
                 n += 1
             stats.nt("ops", "".join(ops))
